@@ -188,5 +188,51 @@ def run_emfile(binary, wd, idx):
     lines = read(ops); spec = spec_lines(wd, ops)
     return [(idx, l, v) for l, v in zip(lines, spec)]
 
+def stretch_lengths(tier):
+    """lengths (consecutive failed accepts) of the exhaustion stretches: short ones and the ones around the end of
+    the back-off goroutine's delay table, whose length is read from the code (T-gen fact server_retry)"""
+    n = len(common.facts().get('server_retry', {}).get('table') or []) or 7
+    ks = {1, 2, 3, n - 1, n, n + 1, n + 2}
+    if tier == 'thorough': ks |= {4, 5, n + 3, n + 5}
+    return sorted(k for k in ks if k >= 1)
+
+def _stretch_proc(binary, wd, ks, tag):
+    ops = os.path.join(wd, 'stretch_%s' % tag)
+    if os.path.exists(ops): os.remove(ops)
+    p = subprocess.run([binary, '-mode', 'stretch', '-ks', ','.join(map(str, ks)), '-facts', os.path.join(common.WORK, 'facts.json'),
+                        '-ops-out', ops], stdout=subprocess.PIPE, stderr=subprocess.STDOUT, text=True, timeout=600)
+    lines = read(ops) if os.path.exists(ops) else []
+    done = {int(kvs(l)['k']): l for l in lines if l.startswith('stretch ')}
+    begun = [int(kvs(l)['k']) for l in lines if l.startswith('begin ')]
+    return p.returncode, p.stdout, done, begun
+
+def run_stretch(binary, wd, ks):
+    """descriptor-exhaustion stretches of the given lengths, all in one child process (concurrently, one event loop
+    each).  A panic in a library goroutine kills the child: every stretch that was in progress is then re-run in a
+    child of its own, shortest first, to find out which length kills it.  Returns [(k, line, verdict)]."""
+    os.makedirs(wd, exist_ok=True)
+    rc, out, done, begun = _stretch_proc(binary, wd, ks, 'all')
+    if rc != 0:
+        for k in sorted(set(ks) - set(done)):
+            rc1, out1, done1, _ = _stretch_proc(binary, wd, [k], 'k%d' % k)
+            if k in done1:
+                done[k] = done1[k]
+            else:
+                why = next((l for l in out1.split('\n') if l.startswith(('panic:', 'fatal error:'))), 'exit status %d' % rc1)
+                done[k] = 'stretch k=%d crashed=1 queued=1 served=0 fresh=0 died=%s' % (k, why.replace(' ', '_').replace('=', ':')[:160])
+    def judge(done):
+        lines = [done[k] for k in sorted(done)]
+        ops = os.path.join(wd, 'stretch_lines')
+        open(ops, 'w').write(''.join(l + '\n' for l in lines))
+        return [(int(kvs(l)['k']), l, v) for l, v in zip(lines, spec_lines(wd, ops))]
+    res = judge(done)
+    # a real-time observation that fails without a crash (a client not served within its wait) is re-run on its own
+    # before it is reported: the machine may be heavily loaded
+    again = [k for k, l, v in res if v != 'OK' and kvs(l).get('crashed') == '0']
+    for k in again:
+        rc1, out1, done1, _ = _stretch_proc(binary, wd, [k], 'again%d' % k)
+        if k in done1: done[k] = done1[k]
+    return judge(done) if again else res
+
 def kvs(line):
     return dict(p.split('=', 1) for p in line.split() if '=' in p)
